@@ -100,7 +100,7 @@ Definition PB (c : nat) (b : bytes) (w : world) : Prop := c_buf (get_conn c w) =
 
 Lemma keeps_on_sent f : keeps_buf (on_sent f). Proof. intro; repeat split; auto. Qed.
 Lemma keeps_lose : keeps_buf lose_conn. Proof. intro; repeat split; auto. Qed.
-#[export] Hint Resolve keeps_on_sent keeps_on_recv keeps_lose keeps_asn4 : keeps.
+#[export] Hint Resolve keeps_on_sent keeps_lose : keeps.
 
 Lemma PB_frame c b w w' : w_conns w' = w_conns w -> PB c b w -> PB c b w'.
 Proof. unfold PB, get_conn. intros ->. auto. Qed.
@@ -167,7 +167,7 @@ Lemma PB_glue c b : glue_ok (PB c b).
 Proof.
   constructor.
   - intros; apply PB_emit; auto.
-  - intros; apply PB_upd; auto.
+  - intros c0 f w [Hf _] H; apply PB_upd; auto.
   - intros n w H; eapply PB_frame; [|exact H]; reflexivity.
   - intros n w H; eapply PB_frame; [|exact H]; reflexivity.
   - intros n w H; eapply PB_frame; [|exact H]; reflexivity.
